@@ -3291,7 +3291,17 @@ class QuicConnection:
             handler=self._on_ack_delivery,
             handler_args=(space, space.largest_received_packet),
         )
-        ranges = push_ack_frame(buf, space.ack_queue, ack_delay_encoded)
+        # The number of ACK ranges is driven by the peer (gaps in the packet
+        # numbers it uses): only write as many ranges as fit in the packet,
+        # starting with the most recent ones.
+        max_ranges = 1 + max(
+            0,
+            (builder.remaining_buffer_space - 4 * UINT_VAR_MAX_SIZE)
+            // (2 * UINT_VAR_MAX_SIZE),
+        )
+        ranges = push_ack_frame(
+            buf, space.ack_queue, ack_delay_encoded, max_ranges=max_ranges
+        )
         space.ack_at = None
 
         # log frame
